@@ -796,6 +796,8 @@ class Walker:
         callnode = getattr(stmt, "_pgv_itercall", None)
         if callnode is None:
             f = it.args[0]
+            if isinstance(f, ast.Name) and isinstance(st.defs.get(f.id), (ast.Call, ast.Lambda, ast.Attribute)):
+                f = st.defs[f.id]  # read = functools.partial(rfile.read, N); for data in iter(read, b""):
             if isinstance(f, ast.Call) and (dotted(f.func) or "").split(".")[-1] == "partial" and f.args:
                 callnode = ast.Call(func=f.args[0], args=list(f.args[1:]), keywords=list(f.keywords))
             elif isinstance(f, ast.Lambda) and not f.args.args:
